@@ -68,6 +68,8 @@ package decorator
 //@   // the value stored is the rule's own strategy unless a later rule has the same key (last rule wins): not claimed, the nested quantifier makes the obligation slow
 //@ func decoratorController.enqueueParentObjectAfter(c, obj, delay) ()
 //@   requires validDC(c)
+//@   requires typeis(obj, *unstructured.Unstructured) ==> unbox(obj, *unstructured.Unstructured) != nil
+//@   requires typeis(obj, cache.DeletedFinalStateUnknown) ==> typeis(unbox(obj, cache.DeletedFinalStateUnknown).Obj, *unstructured.Unstructured) && unbox(unbox(obj, cache.DeletedFinalStateUnknown).Obj, *unstructured.Unstructured) != nil
 
 //@ func decoratorController.syncParentObject(c, parent) (err)
 //@   requires validRM0(c.customize)
